@@ -833,6 +833,10 @@ def range_rule(ctx):
                "rejected by Dictionary::read" % (bound, bad))
 
 
+def run_c05_derived(ctx):
+    derived_caches(ctx)
+
+
 def run_c05(ctx):
     codec_rule(ctx, "C05")
     range_rule(ctx)
@@ -847,6 +851,71 @@ def run_c09(ctx):
     errprop_rule(ctx, is_read_path, "read")
     codec_rule(ctx, "C05")
     scorer_guard(ctx)
+
+
+def derived_caches(ctx):
+    """CODEC-DERIVED: a field that is not part of the image but recomputed (`<x>_len`, the
+    broadcast length of table `<x>` in the AVX2 build) must be recomputed from its own table
+    wherever a value of the type is constructed: in the decoder, in the builder and in Default.
+    A cache taken from the sibling table compiles, passes every in-memory test and only differs
+    after a write/read round trip in the AVX2 build."""
+    from sym import Sym, show
+    n = 0
+    for cfg in ("A", "B"):
+        crate = ctx.facts(cfg).lib
+        E = Effects(crate)
+        for adt, derived in DERIVED_FIELDS.items():
+            for p, f in sorted(crate.fns.items()):
+                if not f.body or f.krate != "vibrato":
+                    continue
+                fa = E.fa(p)
+                S = None
+                for b, i, s in fa.stmts():
+                    rv = s.get("rv")
+                    if not (rv and rv["k"] == "agg" and rv.get("adt") == adt):
+                        continue
+                    S = S or Sym(E, fa)
+                    vals = {k: show(S.operand(o)) for k, o in zip(rv["fields"], rv["ops"])}
+                    for fld in derived:
+                        if fld not in vals or not fld.endswith("_len"):
+                            continue
+                        base = fld[:-4]
+                        if base not in vals:
+                            continue
+                        n += 1
+                        src = vals[base]
+                        # the decoded value `branch(decode(..)).as Continue.0` of the base is
+                        # printed through its call block in the length expression: compare by
+                        # the origin of the two operands instead of by text
+                        ob = fa.origin(rv["ops"][rv["fields"].index(base)])
+                        ok = False
+                        cur = rv["ops"][rv["fields"].index(fld)]
+                        for _ in range(10):
+                            o = fa.origin(cur)
+                            if o[0] != "call":
+                                break
+                            nm = strip_generics(sorted(callee_paths(o[2]))[0]).rsplit("::", 1)[-1]
+                            if nm == "len":
+                                ol = fa.origin(o[2]["args"][0])
+                                ok = ol[:2] == ob[:2] if ol[0] in ("call", "arg") else ol == ob
+                                break
+                            if not o[2]["args"]:
+                                ok = vals[fld].endswith("(0)") and src in ("new()", "default()")
+                                break
+                            cur = o[2]["args"][0]
+                        else:
+                            ok = False
+                        if not ok and vals[fld].endswith("(0)") and src in ("new()", "default()"):
+                            ok = True           # Default: empty table, length 0
+                        ctx.ob("CODEC-DERIVED", "%s|%s|%s|%s" % (cfg, p, adt.split("::")[-1], fld), ok,
+                               fa.loc(b, i),
+                               "%s.%s is recomputed from %s.len() in %s" % (adt.split("::")[-1], fld, base,
+                                                                            p.split("::")[-1]) if ok else
+                               "%s.%s is computed as %s in %s, not from the length of `%s` (%s): the "
+                               "cached bound differs from the table it guards (lookups beyond it read "
+                               "as misses, or out-of-range lanes are accepted)"
+                               % (adt.split("::")[-1], fld, vals[fld][:70], p.split("::")[-1], base, src[:40]))
+    ctx.floor("CODEC-DERIVED", "constructions of types with derived caches", n, 4)
 
 
 def run_c18(ctx):
